@@ -18,7 +18,7 @@ func init() {
 		"streamHTTP.decodeRequestArgs", "streamHTTP.readMsg", "streamHTTP.writeMsg", "streamHTTP.getCodec",
 		"streamWS.RecvMsg", "streamWS.SendMsg",
 		"webWriter.seeHeaders", "webWriter.writeTrailer", "webWriter.flushWithTrailer", "webWriter.Write", "webWriter.WriteHeader", "webWriter.Flush",
-		"AsHTTPBodyReader", "AsHTTPBodyWriter", "negotiateContentType", "negotiateContentEncoding",
+		"AsHTTPBodyReader", "AsHTTPBodyWriter", "negotiateContentType", "negotiateContentEncoding", "expectTokenSlash",
 		"newIncomingContext", "setOutgoingHeader", "setOutgoingMetadata", "setOutgoingTrailer",
 		"decodeBinHeader", "encodeBinHeader", "decodeTimeout", "timeoutUnit", "encodeGrpcMessage", "growcap",
 		// matcher and parameters
